@@ -12,7 +12,7 @@ TRUSTED = [
     "membership_changes = WatchStream::new over a tokio watch channel) and of the consumers' live_members "
     "handling in datacake-eventual-consistency/src/replication/{distributor,poller}.rs; tied to the code by "
     "the differential executor hx-membership (the real watcher task and a real WatchStream subscriber; the "
-    "consumers' four-line apply loop is re-implemented in the executor and pinned by source patterns)",
+    "consumers' four-line apply loop is re-implemented in the executor for the subscriber schedules and pinned by source patterns, including the order left-before-joined; the task distributor's own loop is additionally run for real by the `dist` cases: every published change is handed to it and the addresses its next batch reaches are compared with the model's live map and with the last snapshot)",
     "tokio::sync::watch / tokio_stream::wrappers::WatchStream semantics (latest value + version; a stream built "
     "with WatchStream::new yields the current value first) are modelled by sub_read and exercised for real",
     "extraction: ExtrOcamlBasic only; OCaml 4.13.1; ocaml/membership/conv.ml + modelrun.ml (parsing, sorting "
@@ -41,6 +41,12 @@ PINS = [
     ("datacake-eventual-consistency/src/replication/poller.rs",
      r"for \w+ in \w+\.joined \{\s*\w+\.(insert)\(\w+\.node_id, \w+\.public_addr\);\s*\}",
      "insert", "poller inserts joined members (node id -> public address)"),
+    ("datacake-eventual-consistency/src/replication/poller.rs",
+     r"for \w+ in \w+\.(left) \{[^}]*\}\s*for \w+ in \w+\.joined \{",
+     "left", "poller applies the left members of a change before the joined ones (an address change carries one id in both)"),
+    ("datacake-eventual-consistency/src/replication/distributor.rs",
+     r"for \w+ in \w+\.(left) \{[^}]*\}\s*for \w+ in \w+\.joined \{",
+     "left", "distributor applies the left members of a change before the joined ones"),
     ("datacake-eventual-consistency/src/lib.rs",
      r"let mut \w+ = \w+\.(membership_changes)\(\);",
      "membership_changes", "the store extension subscribes through membership_changes()"),
